@@ -62,7 +62,12 @@ def run(ctx: Ctx) -> None:
     depths: List[Optional[int]] = [None, 1, 2, 7, 1024]
 
     def mk(tag: str, shape: Tuple[int, ...], depth: Optional[int]):
-        return uu.Parameter(torch.empty(shape, device="meta"), tag, depth)
+        p_ = uu.Parameter(torch.empty(shape, device="meta"), tag, depth)
+        if rng.random() < 0.15:
+            # frozen when the groups / the optimizer are built (freeze, build, unfreeze later): the rule is about the
+            # parameter's type, shape and depth, not about whether it currently requires a gradient
+            p_.requires_grad_(False)
+        return p_
 
     opts = [("Adam", None), ("AdamW", None), ("SGD", None), ("SGD", "to_output_scale"),
             ("fn_adam", None), ("fn_sgd", None), ("fn_sgd", "to_output_scale")]
